@@ -78,3 +78,13 @@ impl Holder {
         self.map.get(&owned).cloned()
     }
 }
+
+// R20.2 control: a read guarded by too small a length check
+pub fn ctl_short_read(bytes: &[u8]) -> Option<u64> {
+    if bytes.len() < 4 {
+        return None;
+    }
+    let mut a = [0u8; 8];
+    a.copy_from_slice(&bytes[..8]);
+    Some(u64::from_le_bytes(a))
+}
